@@ -402,6 +402,52 @@ def eval_ugla(cell):
                      "draw does not match; offset %s vs %s)" % (what, z0, mu), focus=focus)
         if res.sample is None:
             res.sample = {"x_k": x0, "offset": z0, "TTt": T @ T.T}
+    # ---- histories on ONE live sampler object of the stateless interface (that is how the legacy Gibbs sampler drives its block
+    #      samplers): constructed at state a, then moved to state b through step(b) / by re-assigning x0 / used for a second
+    #      sample() call - the observed draw must be a draw from the local Gaussian at the state it starts from
+    if iface == "legacy":
+        a_state = refs.dyadic_vec(n, k + 4, scale=0.5)
+        b_state = refs.dyadic_vec(n, k + 6, scale=0.25) + 0.125
+
+        def live(hist, e):
+            import cuqi as _c
+            smp = _c.sampler.UGLA(target, x0=np.array(a_state), maxit=MAXIT, tol=TOL, beta=beta)
+            if hist == "step(b)":
+                st = Stream(normal=[e])
+                with st.installed():
+                    return np.array(smp.step(np.array(b_state)), float).ravel()
+            if hist == "x0:=b":
+                smp.x0 = np.array(b_state)
+                st = Stream(normal=[e])
+                with st.installed():
+                    return np.array(smp.sample(2).samples[:, 1], float)
+            st = Stream(normal=[np.zeros(nd), e])          # "second-call": sample(2) twice, observe the second call's draw
+            with st.installed():
+                smp.sample(2)
+                return np.array(smp.sample(2).samples[:, 1], float)
+        for hist, start in (("step(b)", b_state), ("x0:=b", b_state), ("second-call", a_state)):
+            try:
+                z0, T, aff = affine_probe(lambda e: live(hist, e), nd)
+            except Exception as e:
+                res.fail("C06|%s|live-object-raises|%s" % (comp, facet), "history %s raised %r" % (hist, e))
+                continue
+            res.transitions += nd + 2
+            res.traces += 1
+            res.evaluations += 1
+            res.state("live:%s" % hist)
+            ok = False
+            for z in (D @ start, D @ (start - loc)):
+                W = np.diag(1.0 / np.sqrt(z ** 2 + beta))
+                H = A.T @ L @ A + (1.0 / b) * D.T @ W @ D
+                cov = np.linalg.inv(H)
+                mu = cov @ (A.T @ L @ d + (1.0 / b) * D.T @ W @ D @ loc)
+                ok = ok or (aff and close(z0, mu, 1e-6) and close(T @ T.T, cov, 1e-6))
+            res.outcomes.add("live:%s:%s" % (hist, ok))
+            if not ok:
+                res.fail("C06|%s|live-object|%s" % (comp, facet), "on a sampler object constructed at another state, the draw after the history "
+                         "'%s' is not a draw from the documented local Gaussian at the state it starts from (offset %s)" % (hist, z0),
+                         focus={"history": hist, "constructed_at": a_state, "starts_from": start})
+                break
     # ---- the SECOND transition of one sampler object is a draw from the local Gaussian at the state after the first
     x0 = refs.dyadic_vec(n, k + 4, scale=0.5)
     e1 = refs.dyadic_vec(nd, k + 2, scale=0.5)
